@@ -118,7 +118,7 @@ def build_input(block, variant, nlen, vlen, rep):
     elif variant == 'path':
         base = [(n, cells('path', vlen) if n in (b':path', u':path') else v) for n, v in base]
     elif variant == 'te':
-        base.append((_conv(b'te', rep), cells('te', 8)))
+        base.append((_conv(b'te', rep), cells('te', vlen or 8)))
     elif variant == 'cookie':
         base.append((_conv(b'Cookie', rep), cells('cookie', vlen)))
     elif variant == 'host-authority':
@@ -272,7 +272,7 @@ def shards(tier, seed):
                                 cfg['validate_outbound_headers'])
         if variant == 'extra':
             name = '%s/%s/%s/extra/name=%d/value=%d' % (block, cn, rep, nlen, vlen)
-        elif variant in ('path', 'cookie'):
+        elif variant in ('path', 'cookie') or (variant == 'te' and vlen):
             name = '%s/%s/%s/%s/value=%d' % (block, cn, rep, variant, vlen)
         else:
             name = '%s/%s/%s/%s' % (block, cn, rep, variant)
@@ -302,11 +302,17 @@ def shards(tier, seed):
         for block in ('request', 'push', 'connect'):
             add(block, default, 'bytes', 'order', 0, 0)
         add('connect', default, 'bytes', 'extra', 9, 1)
+        # te values one and two cells longer than "trailers"
+        add('request', default, 'bytes', 'te', 0, 9)
+        add('trailers-server', default, 'bytes', 'te', 0, 10)
         return out
     nlens = [0, 1, 2, 3, 4, 5, 6, 7, 9, 10, 13, 16, 17, 19]
     for block in ('request', 'push', 'connect'):
         for rep in ('bytes', 'str'):
             add(block, default, rep, 'order', 0, 0)
+    for block in BASE:
+        for vlen in (7, 9, 10):
+            add(block, default, 'bytes', 'te', 0, vlen)
     for block in BASE:
         for cfg in CFGS:
             reps = ['bytes', 'str', 'HeaderTuple', 'NeverIndexed'] if cfg is default \
